@@ -5,7 +5,7 @@ from fractions import Fraction
 from ..model import AnalysisError, unparse, walk_local
 from ..paths import Evaluator, is_c, show, C, S, NONE, subterms, substitute
 from ..poly import Poly
-from .common import mk_algebra, trace_tail, loop_containing_call
+from .common import mk_algebra, trace_tail, loop_containing_call, flatten_comp
 from .c06 import _decode_fref
 from . import pools
 
@@ -25,6 +25,10 @@ EXPLANATION = (
 RULE_TEXT = "one obligation per structural clause of the mask algebra / grid / dispatch site / amplitude mode"
 FLOORS = {'C07.R1': 6, 'C07.R2': 4, 'C07.R3': 2, 'C07.R4': 4}
 
+# the result is a mean over the members (and the flag an any()), both invariant under a permutation of the members as
+# long as each worker result is paired with... nothing: sum_k w_pi(k) - sum_k m_k does not depend on pi.  An unordered
+# map is therefore behaviour-preserving and accepted.
+MAPS = ('starmap', 'map', 'imap', 'imap_unordered')
 GNIM = 'emd.sift.get_next_imf_mask'
 GNI = 'emd.sift.get_next_imf'
 TWO_PI = ('bin', '*', C(2), ('ref', 'numpy.pi'))
@@ -88,13 +92,17 @@ def rule_mask_algebra(ctx, rid):
         rvar, res, cnds = comp[3][0]
         if comp[2] != ('sub', rvar, C(0)) or cnds:
             problems['worker'] = 'stacked element is %s, expected the component r[0] of every member' % show(comp[2])[:40]
-        if not (res[0] == 'meth' and res[1] in pools.ORDERED and len(res[3]) == 2):
-            problems['worker'] = 'members do not come from an ordered pool map: %s' % show(res)[:60]
+        if res[0] == 'call' and res[1] == 'builtins.list' and len(res[2]) == 1:
+            res = res[2][0]
+        if not (res[0] == 'meth' and res[1] in MAPS and len(res[3]) == 2):
+            problems['worker'] = 'members do not come from a pool map over the mask phases: %s' % show(res)[:60]
             continue
         d = _decode_fref(P, res[3][0])
         if d is None or d[0] != GNI:
             problems['worker'] = 'worker is %s' % show(res[3][0])[:60]
-        args = res[3][1]
+        args = flatten_comp(res[3][1])
+        if args[0] == 'comp' and args[2][0] not in ('list', 'tuple') and res[1] in ('map', 'imap', 'imap_unordered'):
+            args = ('comp', args[1], ('list', (args[2],)), args[3])      # map passes one argument per member
         if not (args[0] == 'comp' and args[2][0] in ('list', 'tuple') and len(args[2][1]) == 1):
             problems['worker'] = 'worker arguments are %s' % show(args)[:70]
             continue
@@ -147,7 +155,7 @@ def rule_mask_algebra(ctx, rid):
             problems['mask'] = 'mask matrix is %s' % show(M)[:120]
         # flag
         okf = flag[0] == 'call' and flag[1] in ('numpy.any', 'builtins.any') and flag[2] and flag[2][0][0] == 'comp' \
-            and flag[2][0][2] == ('sub', flag[2][0][3][0][0], C(1)) and flag[2][0][3][0][1] == res
+            and flag[2][0][2] == ('sub', flag[2][0][3][0][0], C(1)) and flag[2][0][3][0][1] in (res, ('call', 'builtins.list', (res,), ()))
         if not okf:
             problems['flag'] = 'flag is %s' % show(flag)[:80]
     for k, c in names.items():
@@ -266,12 +274,14 @@ def rule_schedule(ctx, rid):
         fi = P.func(q)
         for call, meth, ca in pools.dispatch_sites(P, fi):
             n += 1
-            c = '%s(%s): order-preserving dispatch' % (meth, ca.func.name)
+            c = '%s(%s): schedule-independent collection of the member results' % (meth, ca.func.name)
             if meth in pools.ORDERED:
                 ctx.passed(rid, fi, c, node=call)
+            elif meth in MAPS:
+                ctx.passed(rid, fi, c, 'Pool.%s is unordered, but the result is a mean over members minus the mean '
+                           'of the masks (R1), which no permutation of the members changes' % meth, node=call)
             else:
-                ctx.violation(rid, fi, c, 'results of Pool.%s are not in submission order, but masks are removed by '
-                              'position' % meth, node=call)
+                ctx.violation(rid, fi, c, 'Pool.%s does not return one result per submitted member' % meth, node=call)
             c2 = '%s(%s): worker cone has no global effects' % (meth, ca.func.name)
             r = pools.may_draw(P, ca.func.qualname)
             glob = []
